@@ -203,7 +203,7 @@ class SimSocket:
             return n
         t = max(self._last_deliver, k.now + net.delay())
         self._last_deliver = t
-        k.schedule(t - k.now, self._deliver, peer, chunk)
+        k.schedule_at(t, self._deliver, peer, chunk)
         return n
 
     def sendall(self, data, flags=0):
@@ -237,7 +237,7 @@ class SimSocket:
         d = self._net.delay() if delay is None else delay
         t = max(self._last_deliver, k.now + d)
         self._last_deliver = t
-        k.schedule(t - k.now, self._deliver_injected, self._peer, bytes(data))
+        k.schedule_at(t, self._deliver_injected, self._peer, bytes(data))
         return True
 
     def _deliver_injected(self, peer, chunk):
@@ -288,7 +288,7 @@ class SimSocket:
         k = self._net.kernel
         t = max(self._last_deliver, k.now + self._net.delay())
         self._last_deliver = t
-        k.schedule(t - k.now, self._deliver_fin, peer, rst)
+        k.schedule_at(t, self._deliver_fin, peer, rst)
 
     def _deliver_fin(self, peer, rst):
         if rst:
